@@ -20,27 +20,6 @@ open Saltpack Saltpack.Classify Saltpack.Msgpack Saltpack.Armor ClsAux MpMono
 theorem getD_append_lt (b e : Bytes) (i : Nat) (h : i < b.length) : (b ++ e).getD i 0 = b.getD i 0 := by
   simp [List.getD, List.getElem?_append_left h]
 
-theorem binBody_ok_stable (rest e : Bytes) (t : Int) (v : Version) (h : binBody rest = .ok (t, v)) :
-    binBody (rest ++ e) = .ok (t, v) := by
-  unfold binBody at h
-  split at h
-  · cases h
-  · rename_i fn r1 hp1
-    have key : ∀ s, binTail s r1 = .ok (t, v) → binTail s (r1 ++ e) = .ok (t, v) := by
-      intro s hs
-      obtain ⟨hs1, hm, more, r2, r3, h2, h3⟩ := binTail_sound s r1 t v hs
-      unfold binTail
-      rw [if_neg (by simp [hs1]), parse1_mono r1 _ r2 e h2]
-      simp only
-      rw [parse1_mono r2 _ r3 e h3]
-      simp only [hm, if_true]
-    unfold binBody
-    rw [parse1_mono rest fn r1 e hp1]
-    split at h
-    · rename_i s; exact key s h
-    · rename_i s; exact key s h
-    all_goals cases h
-
 /-- **a mode/version verdict on a slice is the verdict on every extension of it** -/
 theorem bin_ok_stable (b e : Bytes) (t : Int) (v : Version) (h : binarySlice b = .ok (t, v)) :
     binarySlice (b ++ e) = .ok (t, v) := by
@@ -73,7 +52,7 @@ theorem bin_ok_stable (b e : Bytes) (t : Int) (v : Version) (h : binarySlice b =
           · simp only [getD_append_lt b e skip (by omega)]; exact haskip
         rw [hbe, List.drop_append_of_le_length (by omega)]
         rw [hb] at h'
-        exact binBody_ok_stable _ e t v h'
+        exact CodecMono.binBody_ok_stable _ e t v h'
 
 
 /-! ## the header expression, restated -/
